@@ -889,3 +889,100 @@ Proof.
       destruct (accept_reversed id false (as_conns l)) as [res cl]. simpl in *.
       rewrite B1, <- app_assoc. auto.
 Qed.
+
+(* ====================================================================== *)
+(* hypothesis audit: complementary cases                                   *)
+(* ====================================================================== *)
+
+(* id <> [] in hello_matches_exact is necessary: with the empty id a hello
+   that carries no ClaimId at all matches *)
+Lemma empty_id_matches_absent_claim :
+  hello_matches [] (GHello ccb_reverse_connect None) = true /\
+  GHello ccb_reverse_connect None <> GHello ccb_reverse_connect (Some []).
+Proof. split; [reflexivity|discriminate]. Qed.
+
+(* echoed = id: the complementary case of proxy_echoed_id_rejected *)
+Lemma proxy_echo_of_own_id_accepted id b e :
+  proxy_attempt id b (PrOk e) (GHello ccb_reverse_connect (Some id)) = mkOut (Returned b) [].
+Proof.
+  unfold proxy_attempt, proxy_request. rewrite Z.eqb_refl. cbn [ad_string].
+  replace (bytes_eqb id id) with true by (symmetry; apply bytes_eqb_eq; reflexivity). reflexivity.
+Qed.
+
+(* as_reply_open = false: once a success reply has been taken no further reply is
+   read, so a later "failure" has no effect (the broker sends one reply per request) *)
+Lemma reply_after_success_not_read id st r :
+  as_reply_open st = false -> att_step id (Running st) (SPickReply r) = Running st.
+Proof. intro H. cbn [att_step]. rewrite H. reflexivity. Qed.
+
+Lemma failure_after_success_example id m :
+  exists o, run_attempt id [SPickReply ROk; SPickReply (RFail m); SCtxDone; SPickDone] = Finished o /\
+            o_res o = Failed AeTimeout.
+Proof. eexists. split; reflexivity. Qed.
+
+(* as_ctx_done = true: the complementary case of acceptor_agrees *)
+Lemma acceptor_agrees_cancelled id s p g r :
+  as_acc s = AsWaiting -> as_ctx_done s = true ->
+  att_step id (Running s) (SArrive p g) =
+    Running (mkAtt (AsDone (AccErr ECtx)) (as_reply_open s) true (as_closed s ++ [p]) (as_backlog s)) /\
+  accept_reversed id true (AConn p g :: r) = (AccErr ECtx, [p]).
+Proof. intros WA CD. cbn [att_step accept_reversed]. rewrite WA, CD. auto. Qed.
+
+Lemma accept_reversed_pending_app id : forall l r,
+  fst (accept_reversed id false (as_conns l)) = AccPending ->
+  accept_reversed id false (as_conns l ++ r) =
+  (fst (accept_reversed id false r), snd (accept_reversed id false (as_conns l)) ++ snd (accept_reversed id false r)).
+Proof.
+  induction l as [|[p g] l IH]; intros r H.
+  - simpl. destruct (accept_reversed id false r); reflexivity.
+  - change (as_conns ((p, g) :: l)) with (AConn p g :: as_conns l) in *.
+    assert (NS : g <> GStall) by (intro E; subst; discriminate).
+    rewrite <- app_comm_cons, !(accept_cons_conn id p g _ NS) in *.
+    destruct (hello_matches id g); [discriminate|].
+    destruct (accept_reversed id false (as_conns l)) as [res cl] eqn:E. simpl in H. subst res.
+    rewrite (IH r eq_refl). reflexivity.
+Qed.
+
+(* arrivals never touch the context flag *)
+Lemma step_arrive_ctx id s p g :
+  exists s', att_step id (Running s) (SArrive p g) = Running s' /\ as_ctx_done s' = as_ctx_done s.
+Proof.
+  cbn [att_step]. destruct (as_acc s).
+  - destruct (as_ctx_done s) eqn:CD; [eexists; split; [reflexivity|reflexivity]|].
+    destruct g; try (destruct (hello_matches id _)); eexists; split; try reflexivity; simpl; auto.
+  - eexists; split; reflexivity.
+  - eexists; split; reflexivity.
+Qed.
+
+Lemma arrive_all_ctx id : forall l s s',
+  run_attempt_from id (Running s) (arrive_all l) = Running s' -> as_ctx_done s' = as_ctx_done s.
+Proof.
+  induction l as [|[q g] l IH]; intros s s' E.
+  - simpl in E. inversion E. reflexivity.
+  - change (run_attempt_from id (Running s) (arrive_all ((q, g) :: l)))
+      with (run_attempt_from id (att_step id (Running s) (SArrive q g)) (arrive_all l)) in E.
+    destruct (step_arrive_ctx id s q g) as (s1 & E1 & C1). rewrite E1 in E.
+    rewrite (IH s1 s' E). exact C1.
+Qed.
+
+(* a stalled greeting: the complementary case of no_stall *)
+Lemma acceptor_agrees_stall id l s p :
+  no_stall l -> as_acc s = AsWaiting -> as_ctx_done s = false ->
+  fst (accept_reversed id false (as_conns l)) = AccPending ->
+  exists s', run_attempt_from id (Running s) (arrive_all l ++ [SArrive p GStall; SCtxDone]) = Running s' /\
+    as_acc s' = AsDone (AccErr ECtx) /\
+    fst (accept_reversed id false (as_conns (l ++ [(p, GStall)]))) = AccErr ECtx /\
+    as_closed s' = as_closed s ++ snd (accept_reversed id false (as_conns (l ++ [(p, GStall)]))).
+Proof.
+  intros NS WA CD P.
+  destruct (acceptor_agrees id l s NS WA CD) as (s1 & E1 & C1 & A1).
+  rewrite P in A1.
+  pose proof (arrive_all_ctx id l s s1 E1) as CD1. rewrite CD in CD1.
+  unfold run_attempt_from in *. rewrite fold_left_app, E1.
+  cbn [fold_left att_step]. rewrite A1, CD1. cbn [as_acc].
+  eexists. split; [reflexivity|]. cbn [as_acc as_closed].
+  unfold as_conns in *. rewrite map_app. cbn [map fst snd].
+  rewrite (accept_reversed_pending_app id _ _ P). cbn [accept_reversed fst snd].
+  split; [reflexivity|]. split; [reflexivity|].
+  rewrite C1, <- app_assoc. reflexivity.
+Qed.
